@@ -785,6 +785,11 @@ class SignedFunction(Function):
           self.ctx.new_unsolvable(node) for _ in self.signature.param_names
       ]
     defaults = dict(zip(self.signature.param_names[-len(defaults) :], defaults))
+    # __defaults__ only holds the defaults of positional parameters; the
+    # defaults of keyword-only parameters (__kwdefaults__) are unaffected.
+    for name in self.signature.kwonly_params:
+      if name in self.signature.defaults:
+        defaults[name] = self.signature.defaults[name]
     self.signature.defaults = defaults
 
   def _mutations_generator(
